@@ -6,6 +6,9 @@ CONSTANTS
   Mode = "policy"
   PMode = "proxy"
   ProxyPats <- DefaultProxyPats
+  CacheKey = "none"
+  HistRule = 1
+  HistLen = 3
 SPECIFICATION PSpec
 INVARIANTS AcceptedNeverForbidden
 CHECK_DEADLOCK FALSE
